@@ -87,6 +87,33 @@ def methodsToEnumerate (cls : ClassDef) : List Desc := cls.map Decl.desc
 /-- `_idToMethod`: position = method id. -/
 def idToMethod (cls : ClassDef) : List Desc := sortDescs (methodsToEnumerate cls)
 
+/-- An attribute other than a `_vN` copy that is bound to a replicated function and whose name differs from the
+function's `origName`: an alias (`alias = f`) or the name-mangled attribute of a private method (`def __priv` is the
+attribute `_Cls__priv`, `origName` `__priv`). It passes the `m != origName` filter of the enumeration
+(`syncobj.py:215-217`, `:229-231`) and is enumerated under its attribute name with the `ver` of the function it is bound
+to (the LAST definition). Known finding D86: such entries move when a higher version is added. -/
+structure Alias where
+  obj : Nat
+  attr : Name
+  ver : Nat
+deriving DecidableEq, Repr, Inhabited
+
+def Alias.desc (a : Alias) : Desc := ⟨a.ver, a.obj, a.attr⟩
+
+/-- A class definition with its aliases / private methods spelled out. -/
+structure ClassX where
+  decls : ClassDef
+  aliases : List Alias
+deriving DecidableEq, Repr, Inhabited
+
+/-- The classes the rest of the model (and the property theorems) are about: no alias, no name-mangled private
+replicated method. -/
+def NoAliasOrPrivate (c : ClassX) : Bool := c.aliases.isEmpty
+
+/-- `_idToMethod` of a class with aliases: the extra attributes are sorted in with everything else. -/
+def idToMethodX (c : ClassX) : List Desc :=
+  sortDescs (methodsToEnumerate c.decls ++ c.aliases.map Alias.desc)
+
 /-- `_methodToID[name]` / `_methodToID[(id(consumer), name)]`: keyed by object and method name. -/
 def methodToID (cls : ClassDef) (obj : Nat) (name : Name) : Option Nat :=
   (idToMethod cls).findIdx? (fun d => d.obj == obj && d.name == name)
